@@ -416,6 +416,42 @@ def type_lists(ctx):
     ctx.ob('TYPE-LISTS', AT + '::Atoms.natypes', 'the atoms\' type count is the largest atype; atype < 1 refused', 'ifnp.min(self.atype)<1:raise' in t and 'returnint(np.max(self.atype))' in t, node=an)
 
 
+def construct_lists(ctx, rule='TYPE-LISTS'):
+    """System.__init__ interpreted on model atoms and box: a system may name more types than its atoms use (symbols and masses for elements to be added later); both
+    lists are kept in full -- the mass bound seen by the constructor is the system's type count including the symbols given in the same call"""
+    cls = ctx.fn(SYS, 'System')
+    init = ctx.fn(SYS, 'System.__init__')
+    I = sp.Integer
+
+    class At(PyStub):
+        _isa = ('Atoms',)
+        natypes = 2
+        natoms = 3
+
+    class Bx(PyStub):
+        _isa = ('Box',)
+    for tag, sym, mas, want_s, want_m in (('three symbols and three masses for atoms of two types', ['Al', 'Cu', 'Ni'], [I(27), I(64), I(59)], ('Al', 'Cu', 'Ni'), (27, 64, 59)),
+                                          ('a gap in the symbols, masses for all three', ['Al', None, 'Ni'], [I(27), I(64), I(59)], ('Al', None, 'Ni'), (27, 64, 59)),
+                                          ('as many symbols and masses as atom types', ['Al', 'Cu'], [I(27), I(64)], ('Al', 'Cu'), (27, 64))):
+        me = SymObj(cls, {}, 'self')
+        ev = SymEval(module_aliases(ctx.mod(SYS)))
+        class _Sys(PyStub):
+            def _AtomsIndexer(self, host):
+                return ('indexer', host)
+        ev.globals = {'aslist': lambda v: (list(v) if isinstance(v, (list, tuple)) else [v]), 'Atoms': At, 'Box': Bx, 'System': _Sys()}
+        try:
+            live = [q for q in ev.run_fn(init, [me], dict(atoms=At(), box=Bx(), pbc=(True, True, True), symbols=list(sym), masses=list(mas), safecopy=False)) if q.done == 'return']
+            acc = len(live) == 1
+            why = ''
+        except WouldRaise as e:
+            acc, why = False, str(e)
+        except Opaque as e:
+            raise AnalysisError('System.__init__ (%s): %s' % (tag, e))
+        got_s, got_m = me.attrs.get('_System__symbols'), me.attrs.get('_System__masses')
+        ok = acc and tuple(got_s or ()) == want_s and got_m is not None and len(got_m) == len(want_m) and all(sp.nsimplify(a_) == b_ for a_, b_ in zip(got_m, want_m))
+        ctx.ob(rule, SYS + '::System.__init__', 'a system built with %s keeps both lists in full' % tag, bool(ok), why or 'symbols %s masses %s' % (got_s, got_m), node=init, key='construct ' + tag)
+
+
 def indexing(ctx):
     """Atoms.__getitem__ / __setitem__ interpreted on a model table: which rows of which property are read / written for each kind of index"""
     import numpy as np
@@ -498,4 +534,4 @@ def run(ctx):
     ctx.explanation = ('C06: guard dominance and who-may-write on the per-atom table, alias/freshness analysis of the copying accessors, operand-preservation by the mutation analysis, '
                        'row alignment of extend/atoms_extend, sibling agreement of the symbols/masses accessors, integer-index handling. '
                        'Not decided: equality with a record-per-atom model over arbitrary histories.')
-    ctx.run_rules([rect_guard, copy_discipline, preserve, row_align, type_lists, indexing])
+    ctx.run_rules([rect_guard, copy_discipline, preserve, row_align, type_lists, construct_lists, indexing])
